@@ -258,4 +258,83 @@ def run(ctx):
     ctx.guard("C18.K17", "constructor fidelity", lambda: __import__("ctor").check_for(ctx, "C18", 27))
     ctx.guard("C18.R1", "velocity update", lambda: r1_velocity_update(ctx))
     ctx.guard("C18.R3", "best memories", lambda: r3_best_memories(ctx))
+    ctx.guard("C18.R4", "swarm initialisers", lambda: r4_initialisers(ctx))
     ctx.guard("C18.R5", "inertia weight schedule", lambda: r5_linear(ctx))
+
+
+def r4_initialisers(ctx):
+    """K6: the two swarm initialisers establish `one entry per particle` from ANY earlier content of their collections
+    (a swarm may be initialised more than once on one state: restarts, two-phase runs): after PersonalBestParticlesInit
+    the memories are exactly the current particles; after ParticleVelocitiesInit there is one velocity per particle, each
+    with one component per dimension, every component a fresh draw from [-v_max, v_max]."""
+    F = ctx.facts
+    fn = F.method(PSO + "PersonalBestParticlesInit", "execute", COMP)
+    bad = []
+    n = 0
+    home = 10000
+    for size in range(0, 3):
+        for stale in range(0, 3):
+            def bv(interp, env, f, args):
+                return Ref(home, [], frame="root") if (f.get("gargs") or [""])[0].startswith(PSO + "BestParticles<") else TOP
+            table = {"mahf::state::State::populations": Sym("populations"), "mahf::state::common::Populations::current": Vec("cur", borrowed=True),
+                     "mahf::state::registry::StateRegistry::borrow_value_mut": bv, "mahf::state::registry::StateRegistry::try_borrow_value_mut": lambda i, e, f, a: ok(bv(i, e, f, a))}
+            it = install(Interp(fn.body, chain(mk_oracle(table), coll_oracle, std_oracle), [Sym("self"), Sym("problem"), Sym("state")], facts=F, inline=c07.INLINE, max_visits=12))
+            it.extra_env = {home: Vec("bests")}
+            it.init_state = {"next_vec": 0, "heap": {"bests": tuple(c07.ind("old%d" % i) for i in range(stale)), "cur": tuple(c07.ind(i) for i in range(size))}}
+            n += 1
+            for p in it.run():
+                if p.end != "return" or not (isinstance(p.ret, Agg) and p.ret.variant == "Ok"):
+                    bad.append((size, stale, "does not complete (%s)" % p.end))
+                    continue
+                v = p.env.get(home)
+                got = [c07.otag(x) for x in p.mstate["heap"].get(v.vid, ())] if isinstance(v, Vec) else None
+                want = ["o:%d" % i for i in range(size)]
+                if got != want:
+                    bad.append((size, stale, "leaves the memories %s, expected one per particle: %s" % (got, want)))
+    ctx.check(not bad, "C18.R4", fn.key, "one-memory-per-particle", "%s particles, %s memories left by an earlier initialisation: PersonalBestParticlesInit %s" % (bad[0] if bad else ("", "", "")), detail="%d scenarios" % n, loc=fn.loc())
+    adt = PSO + "ParticleVelocitiesInit"
+    fn = F.method(adt, "execute", COMP)
+    vi = F.field_index(adt, "v_max")
+    bad = []
+    for size in range(0, 3):
+        for dim in range(0, 3):
+            for stale in (0, 2):
+                vmax = 2.5
+                def bv(interp, env, f, args):
+                    return Ref(home, [], frame="root") if (f.get("gargs") or [""])[0].startswith(PSO + "ParticleVelocities<") else TOP
+
+                def draw(interp, env, f, args):
+                    r = args[1] if len(args) > 1 else None
+                    k = interp.mstate.get("ndraw", 0)
+                    interp.mstate["ndraw"] = k + 1
+                    rng = (r.name, tuple(r.fields[:2])) if isinstance(r, Agg) and r.name in ("core::ops::range::RangeInclusive", "core::ops::range::Range") else None
+                    interp.mstate["ranges"] = interp.mstate.get("ranges", ()) + (rng,)
+                    return Sym("draw:%d" % k)
+                table = {"mahf::state::State::populations": Sym("populations"), "mahf::state::common::Populations::current": Vec("cur", borrowed=True),
+                         "mahf::state::State::random_mut": Sym("rng"), "rand::rng::Rng::gen_range": draw, "mahf::problems::VectorProblem::dimension": dim,
+                         "mahf::state::registry::StateRegistry::borrow_value_mut": bv, "mahf::state::registry::StateRegistry::try_borrow_value_mut": lambda i, e, f, a: ok(bv(i, e, f, a))}
+                it = install(Interp(fn.body, chain(mk_oracle(table), coll_oracle, std_oracle), [Sym("self", {vi: vmax}), Sym("problem"), Sym("state")], facts=F, inline=c07.INLINE, max_visits=12))
+                it.extra_env = {home: Vec("vs")}
+                it.init_state = {"next_vec": 0, "heap": {"vs": tuple(Vec("ov%d" % i) for i in range(stale)), "ov0": (9.0,) * dim, "ov1": (9.0,) * dim, "cur": tuple(c07.ind(i) for i in range(size))}}
+                n += 1
+                for p in it.run():
+                    if p.end != "return" or not (isinstance(p.ret, Agg) and p.ret.variant == "Ok"):
+                        bad.append((size, dim, stale, "does not complete (%s)" % p.end))
+                        continue
+                    v = p.env.get(home)
+                    h = p.mstate["heap"]
+                    rows = [list(h.get(r.vid, ())) if isinstance(r, Vec) else None for r in h.get(v.vid, ())] if isinstance(v, Vec) else None
+                    shape_ok = rows is not None and len(rows) == size and all(r is not None and len(r) == dim for r in rows)
+                    if not shape_ok:
+                        bad.append((size, dim, stale, "leaves velocities %s, expected %d vectors of %d components" % (rows, size, dim)))
+                        continue
+                    comps = [x for r in rows for x in r]
+                    tags = [x.tag if isinstance(x, Sym) else None for x in comps]
+                    if any(t is None or not t.startswith("draw:") for t in tags) or len(set(tags)) != len(tags):
+                        bad.append((size, dim, stale, "velocity components %s are not one fresh draw each" % comps))
+                        continue
+                    rngs = set(p.mstate.get("ranges", ()))
+                    if rngs - {("core::ops::range::RangeInclusive", (-vmax, vmax)), ("core::ops::range::Range", (-vmax, vmax))}:
+                        bad.append((size, dim, stale, "draws from %s, expected [-v_max, v_max] = [%s, %s]" % (sorted(map(str, rngs)), -vmax, vmax)))
+    ctx.check(not bad, "C18.R4", fn.key, "one-velocity-per-particle-within-vmax", "%s particles, dimension %s, %s velocities left by an earlier initialisation: ParticleVelocitiesInit %s" % (bad[0] if bad else ("", "", "", "")), detail="%d scenarios" % n, loc=fn.loc())
+    ctx.count("initialiser_scenarios", n)
